@@ -248,7 +248,9 @@ def classify(res, r, lines, unit, seed, path):
             if 0 <= ln < len(lines) and lines[ln].clause:
                 clause = lines[ln].clause
                 break
-        known_kinds = ("not satisfied", "assertion failed", "possible arithmetic", "possible division", "decreases", "might not be allowed", "possible bit shift", "index out of", "postcondition", "post-condition", "precondition", "pre-condition", "invariant")
+        # whitelist of verdicts that are failed obligations; every other Verus message is a tool / proof-incompleteness message
+        known_kinds = ("not satisfied", "assertion failed", "possible arithmetic", "possible division", "possible bit shift",
+                       "unable to prove post-condition", "unable to prove pre-condition", "index out of")
         if fn is None:
             if spans:
                 res.undecided.append("unit %s: failure outside extracted code (spec library / scaffolding): %s" % (unit.name, rendered.strip()[:600]))
